@@ -60,10 +60,18 @@ def scratch_with_patch(patch):
     return tmp
 
 
-def main(argv):
-    dirs = argv or sorted(glob.glob(os.path.join(HERE, "seeded", "*", "")))
-    summary = []
-    for d in dirs:
+def _one(d):
+    """(dir, target, status, fired, printed text) for one seeded change"""
+    import io, contextlib
+
+    buf = io.StringIO()
+    with contextlib.redirect_stdout(buf):
+        r = _one_inner(d)
+    return r + (buf.getvalue(),)
+
+
+def _one_inner(d):
+    if True:
         d = d.rstrip("/")
         patch = os.path.join(d, "patch.diff")
         meta = {}
@@ -77,8 +85,7 @@ def main(argv):
             tmp = scratch_with_patch(patch)
         except RuntimeError as e:
             print(f"== {d}: {e}")
-            summary.append((d, target, "PATCH-FAILED", []))
-            continue
+            return (d, target, "PATCH-FAILED", [])
         try:
             res = run_on(tmp)
         finally:
@@ -98,7 +105,18 @@ def main(argv):
             print(f"   fires: {f}")
         for e in sorted(set(errs)):
             print(f"   error: {e}")
-        summary.append((d, target, status, sorted(set(fired))))
+        return (d, target, status, sorted(set(fired)))
+
+
+def main(argv):
+    from concurrent.futures import ProcessPoolExecutor
+
+    dirs = argv or sorted(glob.glob(os.path.join(HERE, "seeded", "*", "")))
+    summary = []
+    with ProcessPoolExecutor(max_workers=min(16, os.cpu_count() or 4)) as ex:
+        for d, target, status, fired, text in ex.map(_one, dirs):
+            sys.stdout.write(text)
+            summary.append((d, target, status, fired))
     # record the detection matrix next to the seeded mutants
     if not argv:
         res = {}
